@@ -1,26 +1,23 @@
 #!/bin/bash
-# tools/seed_verify.sh <dir with patch.diff + demo> <demo command relative to that dir, with {WT} placeholder>
-# Confirms a seeded defect in a scratch worktree of /repo (outside /repo and /verif):
-#   applies patch -> incremental in-tree build -> existing unit tests (src, lib, test-suite) -> demo must FAIL
-#   reverts       -> rebuild                  -> demo must PASS
-# Prints a summary; the scratch worktree is removed at the end.
+# tools/seed_verify.sh <scratch worktree (built in-tree)> <dir with patch.diff + demo> <demo command>
+# Confirms a seeded defect in the given scratch worktree of /repo (outside /repo and /verif):
+#   applies patch -> incremental build -> existing unit tests (src, lib, test-suite) -> demo must FAIL
+#   reverts       -> rebuild           -> demo must PASS
 set -u
-D=$(readlink -f "$1"); shift
+WT=$(readlink -f "$1"); D=$(readlink -f "$2"); shift 2
 DEMO="$*"
-WT=/tmp/seedverify-$$
-git -C /repo worktree add -q --detach $WT HEAD || exit 9
-rsync -a --exclude .git /repo/ $WT/
-cd $WT
-if ! git apply "$D/patch.diff"; then echo "RESULT patch-does-not-apply"; git -C /repo worktree remove --force $WT; exit 9; fi
-echo "== build with patch"; make -j8 > $WT.build1.log 2>&1; echo "build rc=$?"
+L=$D/verify-logs; mkdir -p $L
+cd $WT || exit 9
+git checkout -q -- . 
+if ! git apply "$D/patch.diff"; then echo "RESULT patch-does-not-apply"; exit 9; fi
+echo "== build with patch"; make -j8 > $L/build1.log 2>&1; echo "build rc=$?"
 echo "== existing tests with patch"
-for d in src lib test-suite compat; do (cd $d && make -k -j8 check > $WT.check-$d.log 2>&1); done
-PASS=$(cat $WT.check-*.log | grep -cE "^PASS:"); FAIL=$(cat $WT.check-*.log | grep -cE "^(FAIL|ERROR):")
-echo "tests with patch: PASS=$PASS FAIL/ERROR=$FAIL"; cat $WT.check-*.log | grep -E "^(FAIL|ERROR):" | head
+for d in src lib test-suite; do (cd $d && make -k -j8 check > $L/check-$d.log 2>&1); done
+PASS=$(cat $L/check-*.log | grep -cE "^PASS:"); FAIL=$(cat $L/check-*.log | grep -cE "^(FAIL|ERROR):")
+echo "tests with patch: PASS=$PASS FAIL/ERROR=$FAIL"; cat $L/check-*.log | grep -E "^(FAIL|ERROR):" | head
 echo "== demo with patch (must fail)"
-(cd "$D" && eval "${DEMO//\{WT\}/$WT}") > $WT.demo1.log 2>&1; RC1=$?; tail -5 $WT.demo1.log; echo "demo rc with patch=$RC1"
-git checkout -q -- . ; make -j8 > $WT.build2.log 2>&1
+(cd "$D" && eval "$DEMO") > $L/demo-with.log 2>&1; RC1=$?; tail -4 $L/demo-with.log; echo "demo rc with patch=$RC1"
+git checkout -q -- . ; make -j8 > $L/build2.log 2>&1
 echo "== demo without patch (must pass)"
-(cd "$D" && eval "${DEMO//\{WT\}/$WT}") > $WT.demo2.log 2>&1; RC2=$?; tail -3 $WT.demo2.log; echo "demo rc without patch=$RC2"
-echo "RESULT tests_fail=$FAIL demo_with=$RC1 demo_without=$RC2"
-cd /; git -C /repo worktree remove --force $WT; rm -f $WT.*.log
+(cd "$D" && eval "$DEMO") > $L/demo-without.log 2>&1; RC2=$?; tail -3 $L/demo-without.log; echo "demo rc without patch=$RC2"
+echo "RESULT tests_pass=$PASS tests_fail=$FAIL demo_with=$RC1 demo_without=$RC2"
